@@ -4,7 +4,7 @@
 From Coq Require Import List Arith Bool.
 Import ListNotations.
 From LCC Require Import Base.Util Model.Proj Model.Sched Model.Fixture Model.TaskSem Model.TaskSemEq
-     Proofs.SchedP Proofs.ProtocolP Proofs.VerdictP.
+     Proofs.SchedP Proofs.ProtocolP Proofs.VerdictP Proofs.TeardownOrderP Proofs.AbortP.
 
 (* Context flags only ever go up during a run ... *)
 Theorem C08_flags_monotone : forall g n sof ms s s', run g n sof s ms = Some s' -> ctx_le (cx s) (cx s').
@@ -70,3 +70,27 @@ Example C08_witness :
   existsb (atom_eqb (AtBegin (OTeardownTest [5; 7]))) (to_main o2) = true /\
   existsb (atom_eqb (AtFire (RLog (LTest [5; 7]) (Some (SdTest 7)) [] 1 (MUser (OBody [5; 7]) [] 1)))) (to_main o2) = false.
 Proof. vm_compute. repeat split; reflexivity. Qed.
+
+(* "AbortTest ends only the current test (the rest of its body is not executed, its teardowns run ...)" — and so does any
+   exception, in any piece of user code: whatever follows a raise in a script is not executed (the whole task is the same as
+   if the script stopped there) ... *)
+Theorem C08_nothing_after_a_raise : forall env p suite n dis deps args params pre k post hk fxs,
+  test_run env p suite (mkTest n dis deps args params (pre ++ ARaise k :: post)) hk fxs =
+  test_run env p suite (mkTest n dis deps args params (pre ++ [ARaise k])) hk fxs.
+Proof. exact test_run_nothing_after_a_raise. Qed.
+Print Assumptions C08_nothing_after_a_raise.
+Theorem C08_nothing_after_a_raise_in_any_code : forall o env pre k post s failed children,
+  run_script o env (pre ++ ARaise k :: post) s failed children = run_script o env (pre ++ [ARaise k]) s failed children.
+Proof. exact run_script_nothing_after_a_raise. Qed.
+Print Assumptions C08_nothing_after_a_raise_in_any_code.
+
+(* ... and the teardowns run whatever the body does — AbortTest, AbortSuite, AbortAllTests, any Exception, failed checks,
+   threads — unless a BaseException killed the worker: once the body has been entered, every teardown of the test (the
+   generator fixtures in reverse order of setup, then teardown_test) is entered after it, each once *)
+Theorem C08_teardowns_run_whatever_the_body_does : forall env p suite t hk fxs,
+  to_res (test_run env p suite t hk fxs) <> TkDied ->
+  In (OBody p) (begins (to_main (test_run env p suite t hk fxs))) ->
+  exists before, begins (to_main (test_run env p suite t hk fxs)) =
+    before ++ [OBody p] ++ rev (teardowns_of (map snd (test_pairs p hk fxs))).
+Proof. exact teardowns_run_whatever_the_body_does. Qed.
+Print Assumptions C08_teardowns_run_whatever_the_body_does.
